@@ -3,8 +3,10 @@
 import json, sys
 pid = sys.argv[1]
 tests = sys.argv[2] if len(sys.argv) > 2 else "test/test_cl"
+avoid = sys.argv[3] if len(sys.argv) > 3 else ""
+suffix = sys.argv[4] if len(sys.argv) > 4 else ""
 p = [json.loads(l) for l in open("/verif/properties.jsonl") if json.loads(l)["id"] == pid][0]
-wt = f"/tmp/wt-{pid}"
+wt = f"/tmp/wt-{pid}{suffix}"
 print(f"""You are helping to evaluate a verification tool by producing a realistic *regression* in a Python library.
 
 The library is NIFTy (Bayesian imaging library, NumPy part `nifty.cl`, JAX part `nifty.re`). You have your own scratch git worktree of it at {wt} (work ONLY there; never touch /repo, never look at or touch /verif). Python with all dependencies: /venv/bin/python (run things with `cd {wt} && PYTHONPATH=/tmp/nompi_stub:{wt} /venv/bin/python ...` so that `import nifty` resolves to your worktree — verify this with `python -c "import nifty; print(nifty.__file__)"`; /tmp/nompi_stub holds an empty `mpi4py` stub that makes nifty.cl fall back to serial mode, because libmpi is missing in this sandbox; keep it on PYTHONPATH). No network.
@@ -14,7 +16,9 @@ This semantic property of the library is supposed to hold:
 "{p['title']}. {p['statement']}"
 (Intended scope: {p['quantifier']['text']})
 
-Your task: make ONE small source change (a few lines, in the library source under {wt}/nifty/, not in tests) that BREAKS this property, while the code still imports and the existing test suite still passes. The change should look like a plausible mistake or "optimisation" a developer could make, and it must need something SPECIFIC to manifest — e.g. a particular multi-step sequence of operations, an unusual but valid input, a rarely used option or code path, or two cooperating sites that each look fine alone — NOT something every ordinary use would expose at once.
+Your task: make ONE small source change (a few lines, in the library source under {wt}/nifty/, not in tests) that BREAKS this property, while the code still imports and the existing test suite still passes. The change should look like a plausible mistake or "optimisation" a developer could make, and it must need something SPECIFIC to manifest — e.g. a particular multi-step sequence of operations, an unusual but valid input, a rarely used option or code path, or two cooperating sites that each look fine alone — NOT something every ordinary use would expose at once.""" + (f"""
+
+An earlier regression of this kind already exists; yours must be in a DIFFERENT place: {avoid}""" if avoid else "") + f"""
 
 Deliverables, written to {wt}-out/ :
 1. patch.diff — `git -C {wt} diff` of your change (source only).
